@@ -82,3 +82,25 @@ package openapi3filter
 //@   option safety-tags none
 //@   option auto-invariants safety
 //@   tag C06
+
+// ---- C06 / C08: the body decoder is chosen by the media type of the Content-Type header (the text
+// before the first ";"); a media type without a registered decoder is an error, never an accepted
+// body; a decoder's error is the error; on success the media type found is reported with the value.
+//@ spec mediaTypeOf(ct string) string := indexOf(ct, ";") < 0 ? ct : substr(ct, 0, indexOf(ct, ";"))
+//@ func parseMediaType
+//@   modifies nothing
+//@   ensures [text-before-the-parameters] result == mediaTypeOf(contentType)
+//@   tag C06 C08 C10
+//@ spec decoderAccepts(h http.Header, s *openapi3.SchemaRef) bool
+//@ fnfield BodyDecoder (body, header, schema, encFn)
+//@   modifies *
+//@   preserves all(openapi3), globals(openapi3filter)
+//@   defines (result.1 == nil) <==> decoderAccepts(header, schema)
+//@ extend func decodeBody
+//@   assuming @C06 typeof(body) != type *multipart.Part
+//@   ensures @C06 [no-decoder-no-body] !old(has(bodyDecoders, mediaTypeOf(headerGet(header, headerCT)))) ==> result.2 != nil
+//@   ensures @C06 [decoder-decides] old(has(bodyDecoders, mediaTypeOf(headerGet(header, headerCT)))) ==> ((result.2 == nil) <==> decoderAccepts(header, schema))
+//@   ensures @C06 [media-type-reported] result.2 == nil ==> result.0 == mediaTypeOf(headerGet(header, headerCT))
+//@   ensures @C06 [error-carries-nothing] result.2 != nil ==> result.0 == "" && result.1 == nil
+//@   option safety-tags none
+//@   tag C06
